@@ -60,6 +60,12 @@ def _schema(template, version):
 
 def configure(cfg):
     CFG.update(cfg)
+    if CFG["template"] == "xsitype":
+        key = ("xsitype", CFG["version"])
+        if key not in _S:
+            cls = xmlschema.XMLSchema10 if CFG["version"] == "1.0" else xmlschema.XMLSchema11
+            _S[key] = cls(_XT_XSD)
+        return
     _schema(CFG["template"], CFG["version"])
 
 
@@ -187,6 +193,51 @@ def h_idref(**kw) -> bool:
     return (not errors) == want
 
 
+_XT_XSD = """<xs:schema xmlns:xs="http://www.w3.org/2001/XMLSchema">
+ <xs:complexType name="T0"><xs:sequence/><xs:attribute name="k" type="xs:decimal"/></xs:complexType>
+ <xs:complexType name="T1"><xs:complexContent><xs:extension base="T0"><xs:sequence>
+   <xs:element name="sub" minOccurs="0" maxOccurs="unbounded"><xs:complexType><xs:attribute name="a" type="xs:decimal"/></xs:complexType></xs:element>
+ </xs:sequence></xs:extension></xs:complexContent></xs:complexType>
+ <xs:element name="r"><xs:complexType><xs:sequence><xs:element name="i" type="T0" maxOccurs="unbounded"/></xs:sequence></xs:complexType>
+  <xs:key name="K"><xs:selector xpath="i/sub"/><xs:field xpath="@a"/></xs:key></xs:element></xs:schema>"""
+XSI_NS = 'http://www.w3.org/2001/XMLSchema-instance'
+
+
+def region_key_through_xsitype_duplicates(**kw):
+    """known finding C08-key-through-xsitype: the two sub elements (present only through xsi:type) carry equal key values"""
+    a0 = A_POOL[pick(kw["ax0"], len(A_POOL))]
+    a1 = A_POOL[pick(kw["ax1"], len(A_POOL))]
+    return a0 is not None and a1 is not None and _val_a(a0) == _val_a(a1) or a0 is None or a1 is None
+
+
+def pre_xt(fn, **kw):
+    for v in kw.values():
+        if not (0 <= v < len(A_POOL)):
+            return False
+    from engine.known import open_regions
+    for pred in open_regions(__name__, fn):
+        if globals()[pred](**kw):
+            return False
+    return True
+
+
+def h_xsitype_key(**kw) -> bool:
+    """key whose selected nodes exist only in content added by an xsi:type'd derived type"""
+    key = ("xsitype", CFG["version"])
+    if key not in _S:
+        cls = xmlschema.XMLSchema10 if CFG["version"] == "1.0" else xmlschema.XMLSchema11
+        raise RuntimeError("schema not built")
+    a0 = A_POOL[pick(kw["ax0"], len(A_POOL))]
+    a1 = A_POOL[pick(kw["ax1"], len(A_POOL))]
+    root = ET.Element('r')
+    i = ET.SubElement(root, 'i', {'{%s}type' % XSI_NS: 'T1'})
+    for a in (a0, a1):
+        ET.SubElement(i, 'sub', {} if a is None else {'a': a})
+    errors = list(_S[key].iter_errors(root))
+    want = ref_table("key", [(_val_a(a0),), (_val_a(a1),)])
+    return (not errors) == want
+
+
 def explain(fn, args):
     return "template=%s version=%s args=%r" % (CFG["template"], CFG["version"], args)
 
@@ -231,6 +282,9 @@ def obligations(tier, seed):
                         "args": [["ag1i0", "int"], ["ag1i1", "int"], ["ag2i0", "int"], ["ag1r", "int"]] + ([] if quick else [["ag2r", "int"]]),
                         "config": {"template": "scoped", "version": version, "spool": 3 if quick else 4}, "timeout": 900 if quick else 3000, "twin_timeout": 30,
                         "bound": "two scopes (2+1 items, 1 reference each), field a from %r" % (S_POOL,)})
+        out.append({"name": "xsitype-key/%s" % version, "fn": "h_xsitype_key", "pre": "pre_xt", "args": [["ax0", "int"], ["ax1", "int"]],
+                    "config": {"template": "xsitype", "version": version}, "timeout": 400, "twin_timeout": 30,
+                    "bound": "two key-selected elements inside xsi:type'd content, field from %r" % (A_POOL,)})
         out.append({"name": "idref/%s" % version, "fn": "h_idref", "pre": "pre_rows",
                     "args": [["id%d" % k, "int"] for k in range(2 if quick else 3)] + [["rf%d" % k, "int"] for k in range(2 if quick else 3)],
                     "config": {"template": "idref", "version": version}, "timeout": 500 if quick else 3000, "twin_timeout": 30,
